@@ -111,6 +111,14 @@ func (e *p2pEnv) rangeReply(beh string, o, a uint64, have int) peers.Reply {
 			hs[0] = &vhdr.Header{Chain: "B", H: c.H, T: c.T, Prev: c.Prev}
 		}
 		return peers.Reply{Kind: "ok", Headers: hs}
+	case "panicky": // a forged header on which the header type's own Validate panics (a hostile payload hitting a bug there)
+		hs := get(o, a)
+		if len(hs) > 0 {
+			i := arg % len(hs)
+			c := hs[i]
+			hs[i] = &vhdr.Header{Chain: c.Chain, H: c.H, T: c.T, Prev: c.Prev, Salt: 5, PV: true}
+		}
+		return peers.Reply{Kind: "ok", Headers: hs}
 	case "oversized":
 		return peers.Reply{Kind: "ok", Headers: get(o, a+2)}
 	case "status":
@@ -233,7 +241,7 @@ func (e *p2pEnv) sessionCase(prop string, from, to uint64, chunk uint64, ps []se
 	emit("%s from=%d to=%d chunk=%d peers=%s => res=%s err=%s trace=%s", prop, from, to, chunk, strings.Join(pd, ","), r, ec, trs)
 }
 
-var byzantine = []string{"shift:1", "shift:5", "dup", "reorder", "gapped", "forged:0", "forged:1", "wrongchain", "oversized", "status", "garbage", "notfound", "empty", "reset", "hang", "prefix:1", "prefix:2"}
+var byzantine = []string{"panicky:0", "panicky:1", "shift:1", "shift:5", "dup", "reorder", "gapped", "forged:0", "forged:1", "wrongchain", "oversized", "status", "garbage", "notfound", "empty", "reset", "hang", "prefix:1", "prefix:2"}
 var benign = []string{"slow", "partialreset:1", "partialreset:2", "notfound", "prefix:1", "prefix:2", "prefix:3", "hang", "reset", "empty"}
 
 func runSession(prop, tier string, r *rng) {
